@@ -119,13 +119,18 @@ def gen_tree(rng, depth, want="int", locals_=()):
         return {"k": "bin", "op": "concat", "l": gen_sized(rng, depth - 1, locals_), "r": gen_sized(rng, depth - 1, locals_)}
     if c < 0.88:
         f = rng.choice(["le", "sizeof", "strlen", "le", "sizeof"])
+        def a_string():
+            # plain, or in one of the encodings (whose byte count differs from the UTF-8 one)
+            sv = gen_str(rng)
+            return sv if rng.random() < 0.5 else {"k": "call", "f": rng.choice(ENCODINGS), "args": [sv]}
         if f == "strlen":
-            arg = gen_str(rng) if rng.random() < 0.9 else gen_num(rng)
+            arg = a_string() if rng.random() < 0.9 else gen_num(rng)
         elif f == "le":
             arg = gen_sized(rng, depth - 1, locals_, mult8=rng.random() < 0.85)
         else:
-            arg = gen_sized(rng, depth - 1, locals_) if rng.random() < 0.8 else gen_str(rng)
-        return {"k": "call", "f": f, "args": [arg] if rng.random() < 0.95 else [arg, gen_num(rng)]}
+            arg = gen_sized(rng, depth - 1, locals_) if rng.random() < 0.7 else a_string()
+        r = rng.random()
+        return {"k": "call", "f": f, "args": [arg] if r < 0.93 else [arg, gen_num(rng)] if r < 0.97 else []}
     if c < 0.93:
         # block with locals
         names = ["a", "b", "c"]
